@@ -98,7 +98,7 @@ func newInst(w *wenv, ops []string) *inst {
 	in := &inst{wenv: w, ops: ops}
 	w.cap.payloads = nil
 	// a fresh key per path (different channel target each time, so the strings differ)
-	in.key = w.b1.MustKey(fmt.Sprintf("k%d/", w.paths), security.AllowRead|security.AllowWrite)
+	in.key = w.b1.MustKey(fmt.Sprintf("k%d/", w.paths), security.AllowRead|security.AllowWrite|security.AllowLoad|security.AllowPresence)
 	return in
 }
 
@@ -136,19 +136,86 @@ func (in *inst) Enabled() []int {
 	return out
 }
 
-// tryUse reports whether an operation presenting the key is accepted.
+// tryUse presents the key for every kind of operation (subscribe, publish, history, presence) and
+// reports whether all of them were accepted; mixed answers are reported through the third result.
 func tryUse(c *session.Client, key string, ch string) (accepted bool, ok bool) {
+	acc, ok, mixed := tryUseAll(c, key, ch)
+	if mixed != "" {
+		return !acc, ok // make the caller's comparison fail whatever the ban state is
+	}
+	return acc, ok
+}
+
+var lastMixed string
+
+func tryUseAll(c *session.Client, key string, ch string) (accepted bool, ok bool, mixed string) {
+	var res []string
+	// subscribe
 	code, acked := c.Subscribe(key + "/" + ch)
 	if !acked {
-		return false, false
+		return false, false, ""
 	}
 	c.Drain()
-	if code == 0x80 {
-		return false, true
+	if code != 0x80 {
+		c.Unsubscribe(key + "/" + ch)
+		c.Drain()
+		res = append(res, "subscribe:yes")
+	} else {
+		res = append(res, "subscribe:no")
 	}
-	c.Unsubscribe(key + "/" + ch)
-	c.Drain()
-	return true, true
+	// publish
+	if !c.Publish(key+"/"+ch, []byte("x"), false) {
+		return false, false, ""
+	}
+	perr := false
+	for _, p := range c.Drain() {
+		if p.Type == session.PUBLISH && p.Topic == "emitter/error/" {
+			perr = true
+		}
+	}
+	if perr {
+		res = append(res, "publish:no")
+	} else {
+		res = append(res, "publish:yes")
+	}
+	// history (load) and presence
+	for _, rq := range []struct {
+		name string
+		body map[string]interface{}
+	}{
+		{"history", map[string]interface{}{"key": key, "channel": key + "/" + ch}},
+		{"presence", map[string]interface{}{"key": key, "channel": ch, "status": true}},
+	} {
+		resp, got := c.Request(rq.name, rq.body)
+		if !got {
+			return false, false, ""
+		}
+		// errors are answered on the request's own topic as {"status":4xx,"message":...}
+		var st struct {
+			Status int `json:"status"`
+		}
+		json.Unmarshal(resp.Payload, &st)
+		if resp.Topic == "emitter/"+rq.name+"/" && st.Status < 400 {
+			res = append(res, rq.name+":yes")
+		} else {
+			res = append(res, rq.name+":no")
+		}
+		c.Drain()
+	}
+	yes, no := 0, 0
+	for _, r := range res {
+		if strings.HasSuffix(r, ":yes") {
+			yes++
+		} else {
+			no++
+		}
+	}
+	if yes > 0 && no > 0 {
+		lastMixed = strings.Join(res, " ")
+		return yes > no, true, lastMixed
+	}
+	lastMixed = ""
+	return yes > 0, true, ""
 }
 
 func (in *inst) banRequest(b bool) {
@@ -181,7 +248,9 @@ func (in *inst) Apply(i int) {
 			in.fail("harness:no-suback", "subscribe not acknowledged")
 			return
 		}
-		if acc && in.banned {
+		if lastMixed != "" {
+			in.fail(in.sig("ban-partial"), "operations presenting the same key disagree: "+lastMixed)
+		} else if acc && in.banned {
 			in.fail(in.sig("ban-ignored"), "the key was used successfully although its ban had been acknowledged")
 		} else if !acc && !in.banned {
 			in.fail(in.sig("unban-ignored"), "the key was refused although it is not banned (unban acknowledged or never banned)")
@@ -341,7 +410,7 @@ func worker(c *core.Ctx, args []string) {
 	switch args[0] {
 	case "kill-child":
 		if key == "-" { // mint the key and tell the parent
-			key = env.MustKey("a/", security.AllowRead|security.AllowWrite)
+			key = env.MustKey("a/", security.AllowRead|security.AllowWrite|security.AllowLoad|security.AllowPresence)
 			fmt.Printf("KEY %s\n", key)
 		}
 		for i, op := range strings.Split(args[3], ",") {
